@@ -490,7 +490,26 @@ impl History {
                 F::Xor(Box::new(xor_tree(lo, mid)), Box::new(xor_tree(mid, hi)))
             }
         }
-        let parity = xor_tree(0, n);
+        // or a conjunction / disjunction of all of them: a chain whose nodes have one constant
+        // child and one child 60+ levels deep (model counts of 2^64 and more)
+        fn junct_tree(lo: usize, hi: usize, and: bool) -> F {
+            if lo + 1 == hi {
+                F::Atom(lo)
+            } else {
+                let mid = (lo + hi) / 2;
+                let (a, b) = (Box::new(junct_tree(lo, mid, and)), Box::new(junct_tree(mid, hi, and)));
+                if and {
+                    F::And(a, b)
+                } else {
+                    F::Or(a, b)
+                }
+            }
+        }
+        let parity = match rng.below(4) {
+            0 => junct_tree(0, n, true),
+            1 => junct_tree(0, n, false),
+            _ => xor_tree(0, n),
+        };
         let mut acs = vec![parity];
         for i in 1..n - 1 {
             acs.push(match rng.below(6) {
